@@ -342,6 +342,14 @@ def canary_stock_reads_flow_at_t(npx):
 
 # ------------------------------------------------------------------ main
 
+_G = {}
+
+
+def _task(t):
+    tag, desc, spec, via_plot = t
+    return run_symbolic(desc, spec, _G["timeout"], _G["npx"], via_plot=via_plot)
+
+
 def run(tier):
     import BPTK_Py.sddsl.operators as ops
     import BPTK_Py.sddsl.element as el
@@ -355,42 +363,43 @@ def run(tier):
                 cst.Constant.equation.fset, Model.memoize, Model._lookup, ops.Delay.term, ops.Smooth.__init__,
                 ops.Trend.__init__, ops.Step.term, ops.Pulse.term, ops.Lookup.term, ops.Time.term, ops.DT.term,
                 ops.Starttime.term, ops.If.term, ops.extractTerm, ops.UnaryOperator.term, el.Element.plot)
-    timeout = 20 if tier == "quick" else 120
+    timeout = 20 if tier == "quick" else 60
     models = structure_models(tier) + direct_models(tier)
     sp = specs(tier)
     stubs = harness.Stubs()
     npx = harness.install_sd_stubs(stubs)
+    _G["npx"], _G["timeout"] = npx, timeout
     counts = {"holds": 0, "violated": 0, "unknown": 0}
     samples, programs, paths_total = [], 0, 0
     failing = {}
-    try:
-        for tag, desc in models:
-            for si, spec in enumerate(sp):
-                if tier == "quick" and si > 0 and tag.startswith("struct:") and (hash(tag) + si) % 3:
-                    continue                                    # quick: every structure model on the base spec, a third on each other
-                st, info = run_symbolic(desc, spec, timeout, npx)
-                programs += 1
-                counts[st] += 1
-                if st == "holds":
-                    paths_total += info
-                elif st == "unknown":
-                    rep.inconcl("%s %s: %s" % (tag, spec_class(spec), info))
-                else:
-                    failing.setdefault(tag, []).append((spec, info, desc))
-                if len(samples) < 10 and (len(samples) < 5 or st != "holds"):
-                    samples.append({"model": L.show_model(desc), "spec": spec, "verdict": st})
-        # second observation point: Element.plot(return_df=True) on a subset
-        plot_models = [m for m in models if m[0] in ("struct:in[k*S]-out[k-S]", "direct:stock:el", "struct:two-stocks",
-                                                      "direct:converter:lookup(time)")]
-        for tag, desc in plot_models:
+    tasks = []
+    for tag, desc in models:
+        for si, spec in enumerate(sp):
+            if tier == "quick" and si > 0 and tag.startswith("struct:") and (sum(map(ord, tag)) + si) % 3:
+                continue                                    # quick: every structure model on the base spec, a third on each other
+            tasks.append((tag, desc, spec, False))
+    # second observation point: Element.plot(return_df=True) on a subset
+    for tag, desc in models:
+        if tag in ("struct:in[k*S]-out[k-S]", "direct:stock:el", "struct:two-stocks", "direct:converter:lookup(time)"):
             for spec in sp[:2] + sp[3:4]:
-                st, info = run_symbolic(desc, spec, timeout, npx, via_plot=True)
-                programs += 1
-                counts[st] += 1
-                if st == "unknown":
-                    rep.inconcl("plot %s %s: %s" % (tag, spec_class(spec), info))
-                elif st == "violated":
-                    failing.setdefault("plot:" + tag, []).append((spec, info, desc))
+                tasks.append(("plot:" + tag, desc, spec, True))
+    try:
+        results = harness.pmap(_task, tasks, chunksize=4)
+        for (tag, desc, spec, via_plot), (r, err) in zip(tasks, results):
+            programs += 1
+            if err is not None:
+                st, info = "unknown", "worker: %s" % err
+            else:
+                st, info = r
+            counts[st] += 1
+            if st == "holds":
+                paths_total += info
+            elif st == "unknown":
+                rep.inconcl("%s %s: %s" % (tag, spec_class(spec), info))
+            else:
+                failing.setdefault(tag, []).append((spec, info, desc))
+            if len(samples) < 10 and (len(samples) < 5 or st != "holds"):
+                samples.append({"model": L.show_model(desc), "spec": spec, "verdict": st})
         rep.canary("Flow-without-clamp", canary_flow_unclamped(npx))
         rep.canary("Stock-integrates-equation-at-t", canary_stock_reads_flow_at_t(npx))
     finally:
